@@ -13,7 +13,6 @@ use ecverif::rng::Rng;
 use ecverif::sim::{AlRule, DeviceDesc, Segment, SiiFault};
 use ecverif::util::{Report, hex};
 use ecverif::wkcnet::{self, Act, RecDg, RecEv, Recorder};
-const _: u8 = FPRD;
 use ethercrab::error::Error;
 use ethercrab::subdevice_group::{NoDc, PreOp, SubDeviceGroup};
 use ethercrab::verif::eeprom::{DeviceEeprom, EepromDataProvider};
@@ -138,10 +137,35 @@ fn required(path: &str, d: &RecDg, before_mbx_write: bool, num: u16) -> Option<u
 fn monitor_composite(path: &str, rec: &Recorder, out: &Outcome, num: u16, rep: &mut Report, line: &str) {
     let mut before_write = true;
     let mut checked: Vec<(u16, u16)> = Vec::new(); // (required, delivered) of every non-exempt datagram
-    for e in &rec.evs {
+    // group status frames: is_state stops reading a frame at the first poll that reports another
+    // state, so the polls behind it in the same frame are never looked at (nothing of them is used)
+    let mut unread: Vec<usize> = Vec::new();
+    if path == "grp" {
+        let mut cur_frame = usize::MAX;
+        let mut stopped = false;
+        for (i, e) in rec.evs.iter().enumerate() {
+            if let RecEv::Dg(d) = e {
+                if d.cmd == FPRD && d.ado == 0x0130 {
+                    if d.frame != cur_frame {
+                        cur_frame = d.frame;
+                        stopped = false;
+                    }
+                    if stopped {
+                        unread.push(i);
+                    } else if d.wkc == 1 && d.data[0] & 0x0f != num as u8 {
+                        stopped = true;
+                    }
+                }
+            }
+        }
+    }
+    for (i, e) in rec.evs.iter().enumerate() {
         if let RecEv::Dg(d) = e {
             if path == "mbx" && d.cmd == FPWR {
                 before_write = false;
+            }
+            if unread.contains(&i) {
+                continue;
             }
             if let Some(exp) = required(path, d, before_write, num) {
                 if d.wkc != exp && out.ok {
@@ -158,7 +182,7 @@ fn monitor_composite(path: &str, rec: &Recorder, out: &Outcome, num: u16, rep: &
     if let Some((e, r)) = out.wkc_err {
         // the error must carry the expected count of, and the count delivered for, a datagram of
         // this call whose counter differs (the last one, except for the concurrent reads of `status`)
-        let good = if path == "status" { checked.iter().any(|&(x, w)| x == e && w == r && x != w) } else { checked.last() == Some(&(e, r)) && e != r };
+        let good = if path == "status" || path == "grp" { checked.iter().any(|&(x, w)| x == e && w == r && x != w) } else { checked.last() == Some(&(e, r)) && e != r };
         if !good {
             rep.fail(&format!("c11/wkc-error-wrong-counts/{path}"), &format!("{path}: WorkingCounter{{expected:{e}, received:{r}}} does not match the datagrams delivered"), line);
         }
@@ -586,7 +610,7 @@ fn composite_case(r: &mut Rng, recipe: &str, rep: &mut Report, force: Option<(&s
                     let rec = wkcnet::install(&mut w.net, script.clone());
                     let res = catch_unwind(AssertUnwindSafe(|| run(&mut w.net, async { g.into_op(md).await.map(|_| ()) }))).map_err(|_| ());
                     let out = outcome(res, |_| "ok".to_string());
-                    finish(path, &format!("{} {pdu_len} 8 {members}", mode()), recipe, &rec, out, 0, &script, rep);
+                    finish(path, &format!("{} {pdu_len} 8 {members}", mode()), recipe, &rec, out, 8, &script, rep);
                 }
                 "reqop" => {
                     let script = faults(r, ndev, ndev);
@@ -688,7 +712,7 @@ fn main() {
     let args = ecverif::parse_args();
     let mut rep = Report::default();
     if let Some(cases) = ecverif::replay_cases(&args) {
-        // the witness of the known gap runs in every mode, so its KNOWN-FINDING line stays stable
+        // the former witness of the repaired status-poll gap runs in every mode: it must pass
         run_recipe("kgrp.1.2s2", &mut rep);
         for c in cases.iter().filter(|c| c.starts_with("c11 ")) {
             if let Some(recipe) = c.split(' ').nth(1) {
